@@ -493,6 +493,96 @@ def run(loader, R, tier):
     R.floor("divisions in number classes", ndiv, 8)
     R.floor("two-argument rational constructions", nctor, 6)
 
+    # ---------------------------------------------------------------- R5.4
+    R.rule("R5.4", "Integer and Rational overloads of the Complex arithmetic "
+                   "members have the same operator signature")
+    sibling_overloads(prog, R)
+
+
+def sibling_overloads(prog, R):
+    """R5.4: the Integer and the Rational overload of each Complex arithmetic
+    member (addcomp, subcomp, rsubcomp, mulcomp, divcomp, rdivcomp, ...) are
+    the same formula — the Integer is only widened to a rational first — so
+    their operator signatures over (real_, imaginary_, other) must agree.  A
+    sign or operand slip in one of two siblings is a contradiction between
+    them (no oracle needed)."""
+    from collections import Counter
+    cls = "SymEngine::Complex"
+    groups = {}
+    for u, f in prog.functions.items():
+        if f.get("cls") != cls or not f.get("body") or f.get("dependent") \
+                or len(f.get("params", ())) != 1:
+            continue
+        pt = strip_type(f["params"][0]["t"])
+        if pt in ("SymEngine::Integer", "SymEngine::Rational"):
+            groups.setdefault(f["n"], {})[pt] = f
+
+    def role(x, pname):
+        while x is not None and x.get("k") in ("cast", "ctor") \
+                and len([a for a in x.get("a", ())
+                         if a.get("k") != "defarg"]) >= 1 \
+                and x.get("k") == "cast":
+            x = x["a"][0]
+        if x is None:
+            return "?"
+        if x.get("k") == "mem" and (x.get("o") is None
+                                    or x["o"].get("k") == "this"):
+            return x.get("m")
+        names = {y.get("n") for y in walk(x) if y.get("k") == "ref"}
+        mems = {y.get("m") for y in walk(x) if y.get("k") == "mem"
+                and (y.get("o") is None or y["o"].get("k") == "this")}
+        if pname in names and not mems:
+            return "OTHER"
+        if x.get("k") == "lit":
+            return "lit"
+        return "expr"
+
+    def sig(f):
+        pname = f["params"][0]["n"]
+        c = Counter()
+        for n in walk(f["body"]):
+            if n.get("k") in ("bin", "op") and n.get("op") in (
+                    "+", "-", "*", "/") and len(n.get("a", ())) == 2:
+                c[(n["op"], role(n["a"][0], pname),
+                   role(n["a"][1], pname))] += 1
+            elif n.get("k") in ("un", "op") and n.get("op") == "-" \
+                    and len(n.get("a", ())) == 1:
+                c[("neg", role(n["a"][0], pname))] += 1
+            elif n.get("k") == "call" and n.get("u") \
+                    and (prog.header(n["u"]).get("cls") == cls
+                         or prog.header(n["u"]).get("n") in (
+                             "from_mpq", "from_two_nums")):
+                c[("call", prog.header(n["u"]).get("n"))] += 1
+            elif n.get("k") == "ref" and n.get("d") == "global":
+                c[("const", n.get("n"))] += 1
+        return c
+    npairs = 0
+    for name, g in sorted(groups.items()):
+        if len(g) != 2:
+            continue
+        fi, fr = g["SymEngine::Integer"], g["SymEngine::Rational"]
+        si, sr = sig(fi), sig(fr)
+        # a sibling that simply delegates to the other one is fine
+        if not any(k[0] in ("+", "-", "*", "/", "neg") for k in si) \
+                or not any(k[0] in ("+", "-", "*", "/", "neg") for k in sr):
+            continue
+        npairs += 1
+        R.instance("R5.4", "Complex::" + name, sample={
+            "method": name,
+            "signature": sorted("%s x%d" % (" ".join(k), v)
+                                for k, v in sr.items())[:8]})
+        if si != sr:
+            only_i = sorted(" ".join(k) for k in (si - sr))
+            only_r = sorted(" ".join(k) for k in (sr - si))
+            R.violation(
+                "R5.4", "Complex::" + name, prog.loc(fr),
+                "Complex::%s(const Rational&) and Complex::%s(const "
+                "Integer&) are the same formula but differ: only in the "
+                "Integer overload {%s}, only in the Rational overload {%s}"
+                % (name, name, "; ".join(only_i), "; ".join(only_r)))
+    R.floor("Integer/Rational sibling overloads of Complex compared",
+            npairs, 5)
+
 
 def is_one(e):
     if e is None:
